@@ -140,6 +140,39 @@ class VerifyService:
                     permissions=b'',
                 )
             psid: int = header_info.get("psid", 0)
+            to_be_signed = authorization_ticket.certificate["toBeSigned"]
+            # The ITS-AID of the message shall be among the application permissions of the ticket
+            app_permissions = to_be_signed.get("appPermissions")
+            if app_permissions is not None and psid not in [
+                psid_ssp["psid"] for psid_ssp in app_permissions
+            ]:
+                return SNVERIFYConfirm(
+                    report=ReportVerify.INVALID_CERTIFICATE,
+                    certificate_id=authorization_ticket.as_hashedid8(),
+                    its_aid=b'',
+                    its_aid_length=0,
+                    permissions=b'',
+                )
+            # The generation time shall lie within the validity period of the ticket
+            validity_period = to_be_signed.get("validityPeriod")
+            if validity_period is not None:
+                unit_seconds = {
+                    "microseconds": 1e-6, "milliseconds": 1e-3, "seconds": 1, "minutes": 60,
+                    "hours": 3600, "sixtyHours": 216000, "years": 31556952,
+                }
+                start_us = validity_period["start"] * 1_000_000
+                end_us = start_us + int(
+                    validity_period["duration"][1]
+                    * unit_seconds.get(validity_period["duration"][0], 0) * 1_000_000
+                )
+                if not start_us <= header_info["generationTime"] <= end_us:
+                    return SNVERIFYConfirm(
+                        report=ReportVerify.INVALID_TIMESTAMP,
+                        certificate_id=authorization_ticket.as_hashedid8(),
+                        its_aid=b'',
+                        its_aid_length=0,
+                        permissions=b'',
+                    )
             # §7.1.2: DENM-specific headerInfo constraints
             if psid == 37:
                 # generationLocation SHALL be present
